@@ -157,6 +157,22 @@ func CheckC04(v *View, st Stats) []Violation {
 			}
 		} else {
 			st.Inc("creates_at_vacancy")
+			// an adoptable orphan at that ordinal which was neither adopted nor found gone: the reconcile
+			// should have failed before creating anything (the ordinal is occupied by a pod the set must claim)
+			for _, o := range v.Adoptable {
+				if o.Name != c.Name {
+					continue
+				}
+				gone := false
+				for _, d := range v.R.Calls {
+					if d.Res == simapi.Pods && d.Verb == "patch" && d.Name == o.Name && d.Reason == "NotFound" {
+						gone = true
+					}
+				}
+				if !gone {
+					out = append(out, viol("C04", "occupied-by-unadopted-orphan", "create of %s although the snapshot holds a matching orphan of that name which this reconcile neither adopted nor found gone", c.Name))
+				}
+			}
 		}
 		if seen[ord] {
 			out = append(out, viol("C04", "double-create", "two creates for ordinal %d in one reconcile", ord))
